@@ -234,10 +234,19 @@ def overlay_rulebook(ctx, hw):
     conn = R.rulebook_provider_connector
     saved = getattr(conn, "_cache", None)
     conn._cache = _OVERLAY["provider"]          # logic functions are imported through the connector's provider
+    from annet.rulebook.patching import compile_patching_text
+    from annet.annlib.rbparser.ordering import compile_ordering_text
+    from annet.rulebook.deploying import compile_deploying_text
+    from annet.rulebook.common import import_rulebook_function
+    caches = (compile_patching_text, compile_ordering_text, compile_deploying_text, import_rulebook_function)
     try:
+        for fn in caches:
+            fn.cache_clear()                    # compile and import for real (all of it was done before, under the stock provider)
         return _OVERLAY["provider"].get_rulebook(hw)
     finally:
         conn._cache = saved
+        for fn in caches:
+            fn.cache_clear()
 
 
 def audit(rb):
